@@ -5,6 +5,8 @@ package actor
 import (
 	"context"
 	"errors"
+	"os"
+	"runtime/debug"
 	"sort"
 	"strconv"
 	"sync"
@@ -564,3 +566,228 @@ func VerifNodeLeftScript(dupsBefore, dupsInDelete int) (started int, jobHeld boo
 	_, jobHeld = sys.relocationJob(departed)
 	return started, jobHeld, store.deletes, nil
 }
+
+// ---- live rig: started system, REAL relocator actor, REAL startWorker / worker actor ---------------
+
+type verifLiveCluster struct {
+	cluster.Cluster
+	mu        sync.Mutex
+	peersCall int
+	failRuns  int           // the first failRuns worker runs see cluster.Peers fail
+	gate      chan struct{} // closed = workers may proceed past cluster.Peers
+	atGate    chan struct{} // one token per worker that reached cluster.Peers
+	records   bool          // the registry still holds the departed node's grain record
+	withActor bool          // the departed node also hosted an actor whose type no survivor knows
+}
+
+func (c *verifLiveCluster) IsLeader(context.Context) bool       { return true }
+func (c *verifLiveCluster) LastRebalanceEvent() time.Time        { return time.Time{} }
+func (c *verifLiveCluster) Peers(context.Context) ([]*cluster.Peer, error) {
+	c.mu.Lock()
+	c.peersCall++
+	n := c.peersCall
+	c.mu.Unlock()
+	c.atGate <- struct{}{}
+	<-c.gate
+	if n <= c.failRuns {
+		return nil, errVerifScripted
+	}
+	return nil, nil
+}
+func (c *verifLiveCluster) CountActorsByHost(context.Context, time.Duration) (map[string]int, error) {
+	return map[string]int{}, nil
+}
+func (c *verifLiveCluster) ActorsByHost(context.Context, string, int, time.Duration) ([]*internalpb.Actor, error) {
+	if c.withActor {
+		return []*internalpb.Actor{verifLiveActor()}, nil
+	}
+	return nil, nil
+}
+func (c *verifLiveCluster) GetActor(context.Context, string) (*internalpb.Actor, error) {
+	return nil, cluster.ErrActorNotFound
+}
+func (c *verifLiveCluster) RemoveActor(context.Context, string) error          { return nil }
+func (c *verifLiveCluster) PutActor(context.Context, *internalpb.Actor) error { return nil }
+func (c *verifLiveCluster) GrainsByHost(context.Context, string, int, time.Duration) ([]*internalpb.Grain, error) {
+	c.mu.Lock()
+	defer c.mu.Unlock()
+	if !c.records {
+		return nil, nil
+	}
+	return []*internalpb.Grain{verifLiveGrain()}, nil
+}
+func (c *verifLiveCluster) GetGrain(context.Context, string) (*internalpb.Grain, error) {
+	// the lazy release: the record is dropped from the registry
+	c.mu.Lock()
+	c.records = false
+	c.mu.Unlock()
+	return nil, cluster.ErrGrainNotFound
+}
+func (c *verifLiveCluster) RemoveGrain(context.Context, string) error { return nil }
+
+func verifLiveGrain() *internalpb.Grain {
+	return &internalpb.Grain{GrainId: &internalpb.GrainId{Kind: "kind", Name: "lazy", Value: "kind/lazy"},
+		Host: verifDepartedHost, Port: verifDepartedRemoting}
+}
+
+// verifLiveActor is a relocatable actor of a type that is not registered anywhere: an aborted run lists
+// it as failed and leaves its registry record, a completed run fails to respawn it (listed as failed)
+func verifLiveActor() *internalpb.Actor {
+	return &internalpb.Actor{Address: address.New("live1", "sys", verifDepartedHost, verifDepartedRemoting).String(),
+		Type: "verif.NotRegistered", Relocatable: true}
+}
+
+// VerifLiveResult is what one live script observed.
+type VerifLiveResult struct {
+	Runs, Started, Failed int
+	Job                   string // released | held
+	Timeout               string // which wait timed out ("" = none)
+}
+
+// VerifLiveScript: a STARTED actor system whose relocator is the real relocator actor (spawned by the
+// real spawnRelocator). Every NodeLeft goes through the real handleNodeLeftEvent; the relocator's
+// real startWorker spawns the real worker actor, which blocks inside cluster.Peers until the script
+// lets it go.
+//   snapshot : the departed node left a graceful-shutdown snapshot (else: crash-recovery path,
+//              the relocation set is derived from the registry by the real gateCrashRecovery)
+//   dups     : duplicate NodeLefts delivered while the worker is blocked (relocation in flight)
+//   failRuns : the first failRuns worker runs abort (cluster.Peers fails); after each abort the
+//              departure is notified again (re-request)
+func VerifLiveScript(snapshot bool, dups, failRuns int) (res VerifLiveResult, err error) {
+	if os.Getenv("VERIF_DEBUG") != "" {
+		defer func() {
+			if r := recover(); r != nil {
+				os.Stderr.Write(debug.Stack())
+				panic(r)
+			}
+		}()
+	}
+	ctx := context.Background()
+	system, nerr := NewActorSystem("veriflive", WithLogger(log.DiscardLogger))
+	if nerr != nil {
+		return res, nerr
+	}
+	if serr := system.Start(ctx); serr != nil {
+		return res, serr
+	}
+	sys := system.(*actorSystem)
+	defer func() {
+		// back to the non-clustered system that was started, then stop it
+		sys.relocationEnabled.Store(false)
+		sys.clusterEnabled.Store(false)
+		sys.locker.Lock()
+		sys.cluster = nil
+		sys.clusterStore = nil
+		sys.locker.Unlock()
+		_ = system.Stop(ctx)
+	}()
+	const departed = "10.9.9.9:9500"
+	cl := &verifLiveCluster{gate: make(chan struct{}), atGate: make(chan struct{}, 64), failRuns: failRuns, records: true, withActor: failRuns > 0}
+	store := &verifHookStore{states: map[string]*internalpb.PeerState{}}
+	if snapshot {
+		store.states[departed] = &internalpb.PeerState{
+			Host: verifDepartedHost, PeersPort: verifDepartedPeers, RemotingPort: verifDepartedRemoting,
+			Grains: map[string]*internalpb.Grain{"lazy": verifLiveGrain()},
+		}
+		if failRuns > 0 {
+			store.states[departed].Actors = map[string]*internalpb.Actor{"live1": verifLiveActor()}
+		}
+	}
+	sys.locker.Lock()
+	sys.cluster = cl
+	sys.clusterStore = store
+	sys.locker.Unlock()
+	sys.clusterEnabled.Store(true)
+	sys.relocationEnabled.Store(true)
+	if rerr := sys.spawnRelocator(ctx); rerr != nil {
+		return res, rerr
+	}
+	sub := sys.eventsStream.AddSubscriber()
+	sys.eventsStream.Subscribe(sub, eventsTopic)
+
+	nodeLeft := func() {
+		// the crash path resolves the remoting port from this cache and prunes it afterwards
+		sys.peerRemotingPorts.Set(departed, verifDepartedRemoting)
+		sys.handleNodeLeftEvent(&cluster.Event{Type: cluster.NodeLeft, Payload: &cluster.NodeLeftEvent{Address: departed, Timestamp: time.Now()}})
+	}
+	waitFor := func(what string, cond func() bool) bool {
+		deadline := time.Now().Add(30 * time.Second)
+		for !cond() {
+			if time.Now().After(deadline) {
+				res.Timeout = what
+				return false
+			}
+			time.Sleep(2 * time.Millisecond)
+		}
+		return true
+	}
+	atGate := func() bool {
+		select {
+		case <-cl.atGate:
+			return true
+		case <-time.After(30 * time.Second):
+			res.Timeout = "worker-at-gate"
+			return false
+		}
+	}
+	registered := func() bool { _, ok := sys.relocationJob(departed); return ok }
+
+	collect := func() {
+		cl.mu.Lock()
+		res.Runs = cl.peersCall
+		cl.mu.Unlock()
+		res.Job = "released"
+		if registered() {
+			res.Job = "held"
+		}
+		for message := range sub.Iterator() {
+			switch message.Payload().(type) {
+			case *RelocationStarted:
+				res.Started++
+			case *RelocationFailed:
+				res.Failed++
+			}
+		}
+	}
+
+	// a NodeLeft is fully handled once the remoting-port cache entry is pruned again: synchronously on
+	// the snapshot path, at the end of the gateCrashRecovery goroutine on the crash path
+	handled := func() bool {
+		return waitFor("nodeleft-handled", func() bool { return sys.peerRemotingPortsLenForVerif() == 0 })
+	}
+	for run := 0; run <= failRuns; run++ {
+		nodeLeft()
+		if !handled() || !atGate() { // real relocator -> real startWorker -> real worker reached cluster.Peers
+			collect()
+			return res, nil
+		}
+		for i := 0; i < dups; i++ {
+			nodeLeft()
+			if !handled() {
+				collect()
+				return res, nil
+			}
+		}
+		cl.gate <- struct{}{} // let this worker proceed
+		if !waitFor("job-release", func() bool {
+			// a second worker for the same departure must not exist; if one does, let it run so
+			// that it is counted instead of blocking the teardown
+			select {
+			case cl.gate <- struct{}{}:
+			default:
+			}
+			return !registered()
+		}) {
+			collect()
+			return res, nil
+		}
+	}
+	// no further worker may appear
+	time.Sleep(20 * time.Millisecond)
+	close(cl.gate)
+	time.Sleep(5 * time.Millisecond)
+	collect()
+	return res, nil
+}
+
+func (x *actorSystem) peerRemotingPortsLenForVerif() int { return x.peerRemotingPorts.Len() }
